@@ -133,6 +133,11 @@ pub fn run_pipeline(
         return (term_given, cr);
     }
 
+    #[cfg(cicada_verif)]
+    if let Some(cr) = crate::verif::exec_intercept(cl, capture) {
+        return (term_given, cr);
+    }
+
     if log_cmd {
         log!("run: {}", cl.line);
     }
